@@ -7,8 +7,10 @@ EXPLAIN = ("bounded symbolic execution of the real pams code: the harness runs t
 
 CHECKS = {
     "C01": {"harnesses": [("harness.matching", "C01_ClearingRound"), ("harness.matching", "C01_Continuous"),
-                          ("harness.priority", "C01_HeapMaintenance"), ("harness.ophistory", "C01_OpHistory")]},
+                          ("harness.priority", "C01_HeapMaintenance"), ("harness.ophistory", "C01_OpHistory"),
+                          ("harness.priority", "C01_DeepHeap")]},
     "C02": {"harnesses": [("harness.priority", "C02_OrderLaws"), ("harness.priority", "C02_HeapMaintenance"),
+                          ("harness.priority", "C02_DeepHeap"),
                           ("harness.matching", "C02_ClearingRound"), ("harness.matching", "C02_Continuous")],
             "post": ("harness.xcheck", "post_c02")},
     "C04": {"harnesses": [("harness.ophistory", "C04_OpHistory"), ("harness.ophistory", "C04_NegativeOps"),
